@@ -307,6 +307,12 @@ func c02Classes(N, C int) {
 			vc = append(vc, members)
 		}
 	}
+	if rt.KnownFinding("C02-vertex-classes") {
+		// known finding (known_findings.json): every non-nil vertexClasses argument is
+		// mishandled, so while the finding is open nothing is left to check here
+		rt.Reach("end")
+		return
+	}
 	var perm []int
 	var orbits disjoint.Set
 	var gens [][]int
